@@ -8,11 +8,11 @@ git checkout -q -- . ; git apply --check $O/patch.diff || { echo "patch does not
 git apply $O/patch.diff
 cmake --build _build -- -k 0 >/dev/null 2>&1
 TESTS=$(ctest --test-dir _build -j4 --timeout 900 2>&1 | grep -E "tests passed|tests failed" | head -1)
-( cd $O && bash build.sh >/dev/null 2>&1 ); DEMOEXE=$(ls -t $O | grep -E "^demo$|demo_bin|\.out$" | head -1)
+( cd $O && sh build.sh >/dev/null 2>&1 ); DEMOEXE=$(ls -t $O | grep -E "^demo$|demo_bin|\.out$" | head -1)
 EXE=$(find $O -maxdepth 1 -type f -executable ! -name "*.sh" | head -1)
 $EXE > $O/with.log 2>&1; RC_WITH=$?
 git checkout -q -- . ; cmake --build _build -- -k 0 >/dev/null 2>&1
-( cd $O && bash build.sh >/dev/null 2>&1 )
+( cd $O && sh build.sh >/dev/null 2>&1 )
 EXE=$(find $O -maxdepth 1 -type f -executable ! -name "*.sh" | head -1)
 $EXE > $O/without.log 2>&1; RC_WITHOUT=$?
 echo "$P-$V tests_with_change: $TESTS ; demo rc with=$RC_WITH without=$RC_WITHOUT"
